@@ -126,11 +126,20 @@ func literal(kind string, v interface{}) interface{} {
 	return v
 }
 
-// concurrent mode: probe <ops.json> concurrent <goroutines> <rounds> <seed>
-// every goroutine owns one context and executes the whole (shuffled) history; afterwards the invocation counters and, per goroutine,
+// concurrent mode: probe <ops.json> concurrent <goroutines> <rounds> <seed> [<contexts>]
+// goroutine g works in context g mod <contexts> (default: one context each) and executes the whole (shuffled) history; afterwards the invocation counters and, per goroutine,
 // the serial numbers observed per (operation, name) are printed.
-func concurrent(ops []probeOp, n, rounds int, seed int64) {
+func concurrent(ops []probeOp, n, rounds int, seed int64, groups int) {
 	c := @CTOR@()
+	if groups <= 0 || groups > n {
+		groups = n
+	}
+	ctxs := make([]context.Context, groups)
+	for i := range ctxs {
+		cx, cancel := context.WithCancel(context.Background())
+		defer cancel()
+		ctxs[i] = container.ContextWithContainer(cx, c)
+	}
 	enc := json.NewEncoder(os.Stdout)
 	enc.SetEscapeHTML(false)
 	type obsv struct {
@@ -178,9 +187,7 @@ func concurrent(ops []probeOp, n, rounds int, seed int64) {
 		go func(g int) {
 			defer wg.Done()
 			rnd := rand.New(rand.NewSource(seed*1000 + int64(g)))
-			cx, cancel := context.WithCancel(context.Background())
-			defer cancel()
-			ctx := container.ContextWithContainer(cx, c)
+			ctx := ctxs[g%groups]
 			<-start
 			for r := 0; r < rounds; r++ {
 				perm := rnd.Perm(len(ops))
@@ -234,7 +241,7 @@ func concurrent(ops []probeOp, n, rounds int, seed int64) {
 	}
 	_ = enc.Encode(map[string]interface{}{"k": "invocations", "v": inv})
 	for g := 0; g < n; g++ {
-		_ = enc.Encode(map[string]interface{}{"k": "goroutine", "g": g, "obs": results[g]})
+		_ = enc.Encode(map[string]interface{}{"k": "goroutine", "g": g, "ctx": g % groups, "obs": results[g]})
 	}
 }
 
@@ -251,7 +258,11 @@ func main() {
 		n, _ := strconv.Atoi(os.Args[3])
 		rounds, _ := strconv.Atoi(os.Args[4])
 		seed, _ := strconv.ParseInt(os.Args[5], 10, 64)
-		concurrent(ops, n, rounds, seed)
+		groups := 0
+		if len(os.Args) > 6 {
+			groups, _ = strconv.Atoi(os.Args[6])
+		}
+		concurrent(ops, n, rounds, seed, groups)
 		return
 	}
 	c := @CTOR@()
